@@ -255,7 +255,7 @@ def qualify(name):
     if name not in _QUAL:
         if re.match(r"dir_(rm|ins|look)_", name):
             return "internal::verif::h_dir::" + name  # generated by vlib/shapes.py
-        if re.match(r"cache_(c|p)_", name):
+        if re.match(r"cache_(c|p|f)_", name):
             return "internal::verif::h_cache::" + name  # generated by vlib/seqs.py
         raise KeyError("harness %s is registered but not defined in /verif/harness" % name)
     return _QUAL[name]
